@@ -8,6 +8,7 @@ import (
 	"math/rand"
 	"sort"
 	"strings"
+	"sync/atomic"
 	"time"
 
 	"verif/refctl"
@@ -356,7 +357,7 @@ type opKind struct {
 var opKinds = []opKind{
 	{"connect", 3}, {"join", 2}, {"subscribe", 14}, {"unsubscribe", 5}, {"subscribe_no_ev", 2},
 	{"local_set_change", 12}, {"local_set_same", 4}, {"remote_write_change", 12}, {"remote_write_same", 4},
-	{"local_set_clamped", 3}, {"remote_write_clamped", 3},
+	{"local_set_clamped", 3}, {"remote_write_clamped", 3}, {"hardware_change", 3}, {"read_refreshing", 4},
 	{"remote_write_readonly", 2}, {"combined_put", 7}, {"read", 3}, {"close_fin", 3}, {"close_rst", 3},
 }
 
@@ -702,13 +703,51 @@ func (h *history) step(maxConns int) {
 			h.applySub(c, s.xi, s.on, st, code)
 		}
 		h.fenceAll(kind, c, changes, same)
-	case "read":
+	case "hardware_change":
+		// the "hardware" behind the characteristic with the read callback changes; the accessory does not know yet
+		xi := h.pickChar(func(i int, x *chr) bool { return x.hw != nil }, false)
+		if xi < 0 {
+			h.step(maxConns)
+			return
+		}
+		x := h.f.chars[xi]
+		nv := int64(h.rnd.Intn(1000))
+		h.logf("hardware_change: the hardware behind %s now reads %d (stored value %s)", x.Key, nv, showVal(x.cur))
+		atomic.StoreInt64(x.hw, nv)
+		h.fenceAll(kind, nil, nil, nil)
+	case "read", "read_refreshing":
 		c := anyConn()
 		var ids [][2]uint64
 		var xs []int
 		for _, xi := range h.rnd.Perm(len(h.f.chars))[:1+h.rnd.Intn(3)] {
 			ids = append(ids, [2]uint64{h.f.chars[xi].AID, h.f.chars[xi].IID})
 			xs = append(xs, xi)
+		}
+		if kind == "read_refreshing" {
+			// make sure the characteristic with the read callback is among the ids
+			if xi := h.pickChar(func(i int, x *chr) bool { return x.hw != nil }, false); xi >= 0 {
+				dup := false
+				for _, y := range xs {
+					dup = dup || y == xi
+				}
+				if !dup {
+					ids = append(ids, [2]uint64{h.f.chars[xi].AID, h.f.chars[xi].IID})
+					xs = append(xs, xi)
+				}
+			}
+		}
+		// a remote read of a characteristic with a read callback stores what the callback returns; if that differs
+		// from the stored value it is a change made through connection c: the OTHER subscribers get an EVENT
+		var refreshed []change
+		for _, xi := range xs {
+			x := h.f.chars[xi]
+			if x.hw != nil {
+				nv := float64(atomic.LoadInt64(x.hw))
+				if !sameJSON(x.cur, nv) {
+					x.cur = nv
+					refreshed = append(refreshed, change{xi, nv})
+				}
+			}
 		}
 		h.logf("read: c%d GET /characteristics?id=%s", c.Slot, refctl.IDList(ids...))
 		m, err := c.c.Do("GET", "/characteristics?id="+refctl.IDList(ids...), "", nil)
@@ -727,6 +766,11 @@ func (h *history) step(maxConns int) {
 				}
 			}
 			h.r.Count("reads_agreeing_with_model", 1)
+		}
+		if len(refreshed) > 0 {
+			h.r.Count("reads_that_refreshed_a_value_from_its_read_callback", 1)
+			h.fenceAll(kind, c, refreshed, nil)
+			return
 		}
 		h.fenceAll(kind, c, nil, nil)
 	case "close_fin", "close_rst":
